@@ -39,6 +39,9 @@ static int pick(int n, const char *label)
 #ifdef C09_FREE
 void sched_set_jitter(unsigned seed);
 #endif
+/* In the free-running (TSan) build only sanitizer reports, crashes and hangs count: the semantic
+ * oracles below rely on the scheduler's notion of time and order, which real concurrency does not give. */
+#define mc_fail(...) do { if (!free_mode) (mc_fail)(__VA_ARGS__); } while (0)
 static void quiet(int sev, const char *m) { (void)sev; (void)m; }
 
 static void init(void)
@@ -168,7 +171,7 @@ static void scen_wake(void)
 }
 
 /* ------------------------------------------------------------------ del */
-struct del { struct event *ev, *far; int pipefd[2]; volatile int in_cb, runs, del_returned, freed, variant, finalize; int started_after_del; int returned_while_running; };
+struct del { struct event *ev, *far; int pipefd[2]; volatile int in_cb, runs, del_returned, freed, variant, finalize; int started_after_del; int returned_while_running; int react; volatile int self_activated; };
 static struct del dl;
 static const char *del_name[] = { "event_del", "event_del_block", "event_del_noblock", "event_free" };
 static void del_cb(evutil_socket_t fd, short what, void *arg)
@@ -176,14 +179,24 @@ static void del_cb(evutil_socket_t fd, short what, void *arg)
 	char c; (void)what; (void)arg;
 	if (dl.del_returned) dl.started_after_del++;
 	dl.in_cb = 1; dl.runs++;
+	/* react 1: the callback queues its own event again while it is running */
+	if (dl.react == 1 && dl.runs == 1) { event_active(dl.ev, EV_WRITE, 1); dl.self_activated = 1; }
 	sched_yield_point();
 	if (dl.runs >= 3) { if (read(fd, &c, 1) < 0) {} }   /* stop being ready: keeps executions finite */
 	sched_yield_point();
 	dl.in_cb = 0;
 }
+static int del_selfact(void *arg) { (void)arg; return dl.self_activated; }
 static void del_actor(void *arg)
 {
 	(void)arg;
+	/* react 2: the deleting thread first activates the event (program order: the activation
+	 * precedes the del, so the del must cancel it), possibly while its callback is running */
+	if (dl.react == 2) event_active(dl.ev, EV_WRITE, 1);
+	/* react 1: the callback re-activates its own event during its first run; the del is only
+	 * issued once that activation has returned, so it precedes the del and must be cancelled by it
+	 * (an activation that merely overlaps the del may legitimately be ordered after it) */
+	if (dl.react == 1) sched_wait_until(del_selfact, NULL);
 	switch (dl.variant) {
 	case 0: event_del(dl.ev); break;
 	case 1: event_del_block(dl.ev); break;
@@ -204,10 +217,11 @@ static void scen_del(void)
 	/* event_free() of an EV_FINALIZE event whose callback may be running is documented misuse
 	 * (event_free_finalize exists for that), so that combination is not driven */
 	dl.finalize = dl.variant == 3 ? 0 : pick(2, "finalize");
+	dl.react = pick(3, "react");
 	dl.far = evtimer_new(base, far_cb, NULL); event_add(dl.far, &hour);
 	dl.ev = event_new(base, dl.pipefd[0], EV_READ | EV_PERSIST | (dl.finalize ? EV_FINALIZE : 0), del_cb, NULL);
 	event_add(dl.ev, NULL);
-	mc_observe("del %s%s", del_name[dl.variant], dl.finalize ? " EV_FINALIZE" : "");
+	mc_observe("del %s%s react=%d", del_name[dl.variant], dl.finalize ? " EV_FINALIZE" : "", dl.react);
 	arm_started();
 	int t1 = sched_spawn(loop_thread, NULL);
 	int t2 = sched_spawn(del_actor, NULL);
@@ -424,7 +438,7 @@ static void body(void)
 #ifdef C09_FREE
 /* free-running pass: item = (repetition, driver parameters); repetition only changes the jitter */
 static uint64_t combo_cap;
-static uint64_t combos(const char *s) { uint64_t c = !strcmp(s, "wake") ? 32 : !strcmp(s, "del") ? 8 : !strcmp(s, "buf") ? 2401 : !strcmp(s, "mix") ? 1296 : 2; return combo_cap && combo_cap < c ? combo_cap : c; }
+static uint64_t combos(const char *s) { uint64_t c = !strcmp(s, "wake") ? 32 : !strcmp(s, "del") ? 24 : !strcmp(s, "buf") ? 2401 : !strcmp(s, "mix") ? 1296 : 2; return combo_cap && combo_cap < c ? combo_cap : c; }
 static void free_item_fn(uint64_t i)
 {
 	uint64_t c = combos(scen_arg);
